@@ -2,7 +2,7 @@
    Model: Pd/Layout.v (both configuration paths, window bookkeeping, group start addresses, the
    device-side meaning of an FMMU).  Statements are for the Debug integer mode, where a run that
    does not panic has passed every width check; c08_release carries them to Release. *)
-From EC Require Import Base.Prelude Base.Bytes Pd.Layout Pd.LayoutProofs Wire.Layout Gen.SrcLayouts Net.Commute Net.CycleAll Pd.Mailbox.
+From EC Require Import Base.Prelude Base.Bytes Pd.Layout Pd.LayoutProofs Wire.Layout Gen.SrcLayouts Net.Commute Net.CycleAll Pd.Mailbox Gen.SrcRegisters.
 Local Open Scope N_scope.
 
 (* windows of a group that came up: inputs of all devices first, then all outputs, consecutive and
@@ -213,3 +213,15 @@ Theorem c08_coe_needs_mailbox : forall m sms, has_coe m sms = true ->
     exists sm, In sm sms /\ sm_usage sm = 2.
 Proof. exact coe_needs_mailbox. Qed.
 Print Assumptions c08_coe_needs_mailbox.
+
+(* the FMMU entities and sync manager channels sit where ETG.1000.4 puts them (and where the device
+   side of the model and the simulator read them): FMMU k at 0x0600 + 16 k, SM k at 0x0800 + 8 k -
+   the addresses declared in src/register.rs, regenerated from the sources on every run *)
+Theorem c08_register_addresses :
+  map (fun k => 1536 + 16 * N.of_nat k) (seq 0 16) =
+    [reg_Fmmu0; reg_Fmmu1; reg_Fmmu2; reg_Fmmu3; reg_Fmmu4; reg_Fmmu5; reg_Fmmu6; reg_Fmmu7;
+     reg_Fmmu8; reg_Fmmu9; reg_Fmmu10; reg_Fmmu11; reg_Fmmu12; reg_Fmmu13; reg_Fmmu14; reg_Fmmu15] /\
+  map (fun k => 2048 + 8 * N.of_nat k) (seq 0 8) =
+    [reg_Sm0; reg_Sm1; reg_Sm2; reg_Sm3; reg_Sm4; reg_Sm5; reg_Sm6; reg_Sm7].
+Proof. split; reflexivity. Qed.
+Print Assumptions c08_register_addresses.
